@@ -213,7 +213,7 @@ def run(ctx, args):
     ctx.regen(["GenXEval.v"])
     ctx.build("Props/C15.vo")
     from _delb.xpath import parse
-    n_cases = 700 if quick else 8000
+    n_cases = 700 if quick else 5000
     preamble, terms, meta = [], [], []
     with no_gc():
         for ci in range(n_cases):
